@@ -132,7 +132,8 @@ class Literal(object):
                 datatype = PROV["InternationalizedString"]
         self._datatype = datatype
         # langtag is always a string
-        self._langtag = str(langtag) if langtag is not None else None
+        # (an empty language tag, as in xml:lang="", means no language)
+        self._langtag = str(langtag) if langtag else None
 
     def __str__(self):
         return self.provn_representation()
